@@ -4,10 +4,13 @@
   round trip is C11/C12.  Proved: importing an exported routine succeeds and yields the same routine with every expression
   replaced by its re-read form — same structure, names, types, directions, connections, parameter links, local-variable
   names, kind of sequence, presence/absence of optional sequence fields (constraints are not part of the document).
-  PARTIAL: the textual encoding of endpoints and link targets, pydantic's validation and the export of COMPILED results are
-  covered by the oracle of harness/props/c13.py (with one listed finding: port-variable input names).
+  The textual encodings of endpoints (`child.port`) and link targets (`path.param`, split at the last dot) are part of the
+  model and of the theorem (names dot-free, as QREF's name pattern demands; link sources distinct, as `from_qref` merges them).
+  PARTIAL: pydantic's validation and the export of COMPILED results are covered by the oracle of harness/props/c13.py (with
+  one listed finding: port-variable input names).
 -/
 import BartiqModel.Qref
+import BartiqProofs.QrefLemmas
 namespace Bartiq
 
 /-- the codec reads back what it printed -/
@@ -29,28 +32,86 @@ theorem seq_roundtrip (c : Codec) (f : Expr → Expr) (hc : c.RoundTrips f) (s :
     cases s <;> cases p <;> simp [Seq.toQ, QSeq.fromQ, Seq.mapExpr, optParse, hc n, hc _]
   | custom t i => simp [Seq.toQ, QSeq.fromQ, Seq.mapExpr, hc t, hc i]
 
+theorem mapM_roundtrip_mem {α β γ : Type} (enc : α → β) (dec : β → Option γ) (g : α → γ) :
+    ∀ (l : List α), (∀ a ∈ l, dec (enc a) = some (g a)) → (l.map enc).mapM dec = some (l.map g)
+  | [], _ => rfl
+  | a :: as, h => by
+    simp only [List.map_cons, List.mapM_cons, h a (by simp), mapM_roundtrip_mem enc dec g as (fun x hx => h x (by simp [hx]))]
+    rfl
+
+/-- an endpoint whose names are dot-free -/
+def Endpoint.OK (e : Endpoint) : Prop := Dotless e.port ∧ ∀ r, e.routine = some r → Dotless r
+
 mutual
-/-- **export then import** gives back the routine itself, with each expression re-read (structure preserved exactly) -/
+/-- what QREF's schema guarantees about names at every level: port and child names in connections and the parameter names
+    of link targets are dot-free (a target's PATH may contain dots), and no two links of one routine share a source -/
+def Routine.NamesOK : Routine → Prop
+  | ⟨_, _, _, _, lks, _, _, cs, _, _, ch, _⟩ =>
+    (lks.map (·.1)).Nodup ∧ (∀ lk ∈ lks, ∀ t ∈ lk.2, Dotless t.2) ∧ (∀ cn ∈ cs, cn.1.OK ∧ cn.2.OK) ∧ Routine.NamesOKList ch
+def Routine.NamesOKList : List Routine → Prop
+  | [] => True
+  | r :: rs => r.NamesOK ∧ Routine.NamesOKList rs
+end
+
+theorem links_roundtrip (lks : List (String × List (String × String))) (h : ∀ lk ∈ lks, ∀ t ∈ lk.2, Dotless t.2) :
+    (lks.map fun lk => (lk.1, lk.2.map targetToStr)).mapM (fun lk => (lk.2.mapM targetOfStr).map fun ts => (lk.1, ts)) = some lks := by
+  have := mapM_roundtrip_mem (fun lk : String × List (String × String) => (lk.1, lk.2.map targetToStr))
+    (fun lk : String × List String => (lk.2.mapM targetOfStr).map fun ts => (lk.1, ts)) id lks (by
+      intro lk hlk
+      have h2 := mapM_roundtrip_mem targetToStr targetOfStr id lk.2 (fun t ht => target_roundtrip t (h lk hlk t ht))
+      simp only [h2, List.map_id_fun, id_eq, Option.map_some])
+  simpa using this
+
+theorem conns_roundtrip (cs : List (Endpoint × Endpoint)) (h : ∀ cn ∈ cs, cn.1.OK ∧ cn.2.OK) :
+    (cs.map fun cn => (cn.1.toStr, cn.2.toStr)).mapM (fun cn => do some ((← Endpoint.ofStr cn.1), (← Endpoint.ofStr cn.2))) = some cs := by
+  have := mapM_roundtrip_mem (fun cn : Endpoint × Endpoint => (cn.1.toStr, cn.2.toStr))
+    (fun cn : String × String => do some ((← Endpoint.ofStr cn.1), (← Endpoint.ofStr cn.2))) id cs (by
+      intro cn hcn
+      obtain ⟨h1, h2⟩ := h cn hcn
+      simp [endpoint_roundtrip cn.1 h1.1 h1.2, endpoint_roundtrip cn.2 h2.1 h2.2])
+  simpa using this
+
+mutual
+/-- **export then import** gives back the routine itself, with each expression re-read (structure preserved exactly,
+    endpoints and link targets through their string encodings) -/
 theorem C13_roundtrip_structure (c : Codec) (f : Expr → Expr) (hc : c.RoundTrips f) :
-    ∀ (r : Routine), (r.toQ c).fromQ c = some (r.reread f)
-  | ⟨n, ty, ips, lvs, lks, ps, rs, cs, rep, cons, ch, ord⟩ => by
+    ∀ (r : Routine), r.NamesOK → (r.toQ c).fromQ c = some (r.reread f)
+  | ⟨n, ty, ips, lvs, lks, ps, rs, cs, rep, cons, ch, ord⟩, hok => by
+    simp only [Routine.NamesOK] at hok
+    obtain ⟨hnd, hlk, hcn, hkids⟩ := hok
+    have hlks := links_roundtrip lks hlk
+    have hcs := conns_roundtrip cs hcn
     have hl := mapM_roundtrip (fun kv : String × Expr => (kv.1, c.pr kv.2)) (fun kv : String × String => (c.ps kv.2).map fun e => (kv.1, e))
       (fun kv => (kv.1, f kv.2)) (by intro kv; simp [hc kv.2]) lvs
     have hp := mapM_roundtrip (fun p : Port => (⟨p.name, p.dir, c.pr p.size⟩ : QPort)) (fun p : QPort => (c.ps p.size).map fun e => (⟨p.name, p.dir, e⟩ : Port))
       (fun p => { p with size := f p.size }) (by intro p; simp [hc p.size]) ps
     have hr := mapM_roundtrip (fun r : Resource => (⟨r.name, r.ty, c.pr r.value⟩ : QResource)) (fun r : QResource => (c.ps r.value).map fun e => (⟨r.name, r.ty, e⟩ : Resource))
       (fun r => { r with value := f r.value }) (by intro r; simp [hc r.value]) rs
-    have hch := C13_roundtrip_children c f hc ch
-    simp only [Routine.toQ, QRoutine.fromQ, hl, hp, hr, hch]
+    have hch := C13_roundtrip_children c f hc ch hkids
+    have hm := mergeLinks_of_nodup lks hnd
+    simp only [Routine.toQ, QRoutine.fromQ, hl, hp, hr, hch, hlks, hcs]
     cases rep with
-    | none => simp [Routine.reread]
-    | some rp => simp [Routine.reread, hc rp.count, seq_roundtrip c f hc rp.seq]
+    | none => simp [Routine.reread, hm]
+    | some rp => simp [Routine.reread, hc rp.count, seq_roundtrip c f hc rp.seq, hm]
 theorem C13_roundtrip_children (c : Codec) (f : Expr → Expr) (hc : c.RoundTrips f) :
-    ∀ (rs : List Routine), QRoutine.fromQList c (Routine.toQList c rs) = some (Routine.rereadList f rs)
-  | [] => rfl
-  | r :: rs => by
-    simp [Routine.toQList, QRoutine.fromQList, Routine.rereadList, C13_roundtrip_structure c f hc r, C13_roundtrip_children c f hc rs]
+    ∀ (rs : List Routine), Routine.NamesOKList rs → QRoutine.fromQList c (Routine.toQList c rs) = some (Routine.rereadList f rs)
+  | [], _ => rfl
+  | r :: rs, h => by
+    simp only [Routine.NamesOKList] at h
+    simp [Routine.toQList, QRoutine.fromQList, Routine.rereadList, C13_roundtrip_structure c f hc r h.1, C13_roundtrip_children c f hc rs h.2]
 end
+
+/-- the string encodings on their own: an endpoint and a link target are read back as written; the target's path may itself
+    contain dots (deep links), because the import splits at the LAST dot -/
+theorem C13_endpoint_encoding_roundtrip (e : Endpoint) (h : e.OK) : Endpoint.ofStr e.toStr = some e :=
+  endpoint_roundtrip e h.1 h.2
+theorem C13_link_target_encoding_roundtrip (path param : String) (h : Dotless param) :
+    targetOfStr (targetToStr (path, param)) = some (path, param) := target_roundtrip (path, param) h
+
+-- non-vacuity: a deep link target whose path has two dots, and a connection endpoint
+example : targetOfStr (targetToStr ("a.b.c", "n")) = some ("a.b.c", "n") := by decide
+example : Endpoint.ofStr (Endpoint.toStr ⟨some "child", "out_0"⟩) = some ⟨some "child", "out_0"⟩ := by decide
+example : (⟨some "child", "out_0"⟩ : Endpoint).OK := ⟨by simp [Dotless], by intro r h; cases h; simp [Dotless]⟩
 
 /-- re-reading changes no name, type, direction, connection, link or nesting -/
 theorem C13_reread_preserves_skeleton (f : Expr → Expr) (r : Routine) :
@@ -77,7 +138,8 @@ theorem C13_absent_field_stays_absent (c : Codec) (s p : Option Expr) (n : Expr)
 
 /-- if the codec is exact (re-reading is the identity, as C12 shows for the model printer/parser on surface trees) the round
     trip is the identity up to the dropped constraints -/
-theorem C13_roundtrip_exact (c : Codec) (hc : c.RoundTrips id) (r : Routine) : (r.toQ c).fromQ c = some (r.reread id) :=
-  C13_roundtrip_structure c id hc r
+theorem C13_roundtrip_exact (c : Codec) (hc : c.RoundTrips id) (r : Routine) (hok : r.NamesOK) :
+    (r.toQ c).fromQ c = some (r.reread id) :=
+  C13_roundtrip_structure c id hc r hok
 
 end Bartiq
